@@ -60,7 +60,7 @@ def kernel_queries(tier):
     qs.append(kq('kernel/pow/kf-neg-even', 'h_pow', {'LK': 0, 'RK': 3, 'PB': 4, 'PE': -2}, kf_only=KP, bounds={'ref_pow': 3}, rec_bounds=PW(2), backend='cvc5', timeout=300))
     for e in (-3, -2, -1, 0, 1, 2, 3):
         for lk in (2, 3):
-            if lk == 3 and e == -2: continue        # only non-negative bases remain there (the rest is C04-pow-neg-even-sign) and no back end decides it
+            if lk == 3 and abs(e) == 2: continue     # clang folds |b|*|b| of the reference to b*b; no back end proves (-b)*(-b) == b*b at 64 bits (4-bit bases: small/e2)
             qs.append(kq('kernel/pow/wide/%s/e%d' % (KN[lk], e), 'h_pow', {'LK': lk, 'RK': 3, 'PB': 64, 'PE': e}, kf_excl=[KP], bounds={'ref_pow': abs(e) + 1}, rec_bounds=PW(e),
                          backend='cvc5', timeout=300))
     # fractional base / exponent: |x| in (0,1) -> no value (documented); other non-integral reals are truncated today (finding)
@@ -80,5 +80,22 @@ def kernel_queries(tier):
                 qs.append(kq('kernel/%s/%s-%s' % (OPN[op], nl, nr), 'h_eq_mixed', {'OPER': op, 'NT': NTX, 'SKL': sl, 'SKR': sr}, kf_excl=[KF_NAT],
                              bounds={'h_eq_mixed': NTX + 1, 'vf_buf.*': NTX + 3, 'IsEqual': NTX + 1, 'getValue': 3}, timeout=600))
     return qs
+EVX = '_ZNK6Qentem12TemplateCoreIc8SymValueIcE11FixedStreamIcLj8EEE18evaluateExpressionERNS_11QExpressionES7_NS6_10QOperationE'
+def prec_queries(tier):
+    qs = []
+    kmax = 3 if tier == 'quick' else 4
+    for k in range(1, kmax + 1):
+        for par in [-1] + list(range(k)):
+            d = {'K': k, 'PAR': par, 'SUBK': 2, 'VB': 2}
+            nm = 'K%d/%s' % (k, 'flat' if par < 0 else 'par%d' % par)
+            b = {'pick_list': max(k, 2) + 1, 'build.*|h_.*': max(k, 2) + 1, 'climb_.*': k + 1, 'ambiguous': k + 1, 'evaluate': k + 1, 'arith': 10,
+                 'Dispose|~Array|Array|operator\\+=': k + 2}
+            sub = 2 if par >= 0 else 0
+            rb = {'evaluate': k + sub, 'GetExpressionValue': 1 + (1 if par >= 0 else 0), 'climb_.*': k + 1, '~QExpression|.*Array.*': 2, 'PowerOf': 1}
+            for entry, stub in (('h_tree', 'fn_tree'), ('h_doc', 'fn_arith'), ('h_fail', 'fn_fail')):
+                if entry == 'h_fail' and k == 1 and par < 0: continue
+                qs.append(Query('prec/%s/%s' % (entry[2:], nm), 'C04_prec.cpp', entry, d, bounds=b, rec_bounds=rb, default_rec=2, stubs={EVX: stub},
+                                cflags=PRIV, mem_gb=8, timeout=600, replay='none'))
+    return qs
 def queries(tier):
-    return kernel_queries(tier)
+    return kernel_queries(tier) + prec_queries(tier)
